@@ -8,7 +8,7 @@ RULE = ('documents of the five text formats generated from an abstract inline mo
         'timestamp tags, unknown tags with and without a known-tag prefix, source line wraps in DFXP/SAMI) '
         'by independent serialisers that pick a random legal spelling for every special character (named, '
         'decimal, hex reference, raw where legal). Expected display text is computed from the model. '
-        'Non-trivial: the cue contains a reference, a tag, a wrap or a metacharacter.')
+        'A break or the only blank between two words may sit alone in a styled span; lines of one character; one case in seven on a reader object used before. Non-trivial: the cue contains a reference, a tag, a wrap or a metacharacter.')
 ANCHORS = ['pycaption.dfxp.base:DFXPReader._convert_tag_to_node',
            'pycaption.dfxp.base:DFXPReader._convert_span_to_nodes',
            'pycaption.dfxp.base:LayoutAwareDFXPParser.__init__',
